@@ -13,47 +13,41 @@ CONSTANTS
   DMeans = {}
   DStds = {}
   Spacings = {}
+  FollowUps = {}
   FeatKinds = {}
   Missing = {}
   Cols = {}
   NullTimes = {}
   IdKinds = {}
+  TabShapes = {}
   SrcDims = {}
-  MaxDev = 12
-  AsBuilt = TRUE
+  MaxDev = 14
+  Deviations = {}
 INVARIANT Conforms
 """
-DEVIATIONS = {
-    "D2-missing-parameter": lambda r: r["vt"] == "random" and r["missing"],
-    "D3-patient-number-type": lambda r: r["vt"] == "random" and r["pn"] in ("str", "none") and not r["missing"],
-    "D4-spacing-type": lambda r: r["vt"] == "random" and r["spacing"] == "str" and r["pn"] not in ("str", "none") and not r["missing"],
-    "D5-patient-number-true": lambda r: r["vt"] == "random" and r["pn"] == "true",
-    "D6-model-without-sources": lambda r: r["src"] == 0,
-    "D7-negative-mean-interval": lambda r: r["vt"] == "random" and r["dmean"] in ("neg", "zero") and r["dstd"] == "pos",
-    "D8-tiny-spacing": lambda r: r["vt"] == "random" and r["spacing"] == "tiny",
-    "D9-table-columns": lambda r: r["vt"] == "dataframe" and r["cols"] == "noid",
-    "D10-integer-identifiers": lambda r: r["vt"] == "dataframe" and r["idkind"] == "int",
-}
+# named deviations still modelled as built (none: D2-D11 of the tree as given were all repaired, see known_findings.json)
+DEVIATIONS = {}
 
 
 def valid(r):
     if r["feats"] != "ok" or r["vt"] not in ("random", "dataframe"):
         return False
     if r["vt"] == "random":
-        return (not r["missing"] and r["pn"] == "pos" and r["std"] == "ok" and r["spacing"] in ("absent", "one", "tenth", "tiny")
+        return (not r["missing"] and r["pn"] in ("pos", "one") and r["std"] == "ok" and r["spacing"] in ("absent", "one", "tenth", "tiny")
                 and r["dmean"] == "pos")
     return r["cols"] == "ok" and not r["nulltime"]
 
 
 def run(ctx):
     q = ctx.quick
-    ctx.rule = ("TLC enumerates every design with at most 2 (3 in the thorough tier) attributes off the valid base over 12 attribute "
-                "classes of SimDesign.tla (visit type, patient number kinds, standard deviations, mean / std of the interval between "
-                "visits, minimal spacing, feature list kinds, missing parameter, table columns / null ages / identifier typing, model "
-                "with / without sources) and checks Honoured (valid => completes, invalid => refused) on the intended design; every "
+    ctx.rule = ("TLC enumerates every design with at most 2 (3 in the thorough tier) attributes off the valid base over 14 attribute "
+                "classes of SimDesign.tla (visit type, patient number kinds incl. a single individual, standard deviations, mean / std of "
+                "the interval between visits incl. a std comparable to the mean, minimal spacing, follow-up zero / decades long, feature "
+                "list kinds, missing parameter, table columns / null ages / identifier typing / rows out of order with a repeated age / "
+                "ages decades after onset, model with / without sources) and checks Honoured (valid => completes, invalid => refused) on the intended design; every "
                 "enumerated design is made concrete and run on a real fitted logistic model under a 10 s alarm watchdog; TLC compares "
-                "the outcome class (completes / refused with the algorithm-input error / crash class / timeout) with the as-built "
-                "Outcome (nine named deviations) and checks the post-conditions of completed runs: exact individuals, unique increasing "
+                "the outcome class (completes / refused with the algorithm-input error / crash class / timeout) with Outcome "
+                "(the ten deviations of the tree as given were repaired) and checks the post-conditions of completed runs: exact individuals, unique increasing "
                 "ages rounded to the precision implied by the spacing, finite values in [0,1] for every feature, one parameter set "
                 "per individual (SimDesignTrace.tla). Distinct = distinct design class.")
     ctx.assumptions = ["a design is reported as non-terminating when the pure-Python generation loop is still running after 10 s "
@@ -74,8 +68,7 @@ def run(ctx):
     recs = []
     for c in cs:
         d = {k: (bool(v) if isinstance(v, bool) else (int(v) if isinstance(v, int) else str(v))) for k, v in c["d"].items()}
-        # the non-terminating class is run once per spacing only in the quick tier (10 s each)
-        recs.append(sd.run_design(d, rnd, seed=ctx.seed + 7, watchdog=10 if not (q and d["dmean"] in ("neg", "zero") and d["dstd"] == "pos" and d["spacing"] != "one") else 3))
+        recs.append(sd.run_design(d, rnd, seed=ctx.seed + 7, watchdog=10))
         ctx.case(key=tuple(sorted(d.items())))
     ok, idx, r2 = cases.validate_records("SimDesignTrace", CFG_T, [{k: v for k, v in r.items() if k != "error"} for r in recs], tmp, "conf")
     ctx.traces += len(recs)
